@@ -482,6 +482,10 @@ class Executor:
             return a - b
         if op in ("Mul", "MulUnchecked"):
             return a * b
+        if op == "Div":
+            return a / b if signed else z3.UDiv(a, b)
+        if op == "Rem":
+            return z3.SRem(a, b) if signed else z3.URem(a, b)
         if op in ("AddWithOverflow", "SubWithOverflow", "MulWithOverflow"):
             if op[0] == "A":
                 r = a + b
